@@ -14,10 +14,10 @@ META = {
     "level": "translation_validation",
     "engine": "E1 artifact-level SMT: fn(miter)[sat] proved equal to OR of endpoint differences of two independently encoded copies, all valuations of tied and untied signals",
     "hashseeds": {"quick": [0, 1], "thorough": [0, 1, 2, 3, 4, 5, 6, 7]},
-    "shards": {"quick": 8, "thorough": 2},
+    "shards": {"quick": 8, "thorough": 4},
     "bounds": {
         "quick": "circuit pairs (c,None), (c,copy), (c,restructured-equivalent), (c,one-gate mutant), (c, c with one input renamed) for c in F-shape + F-unit(K<=3, no pairs) + 20 random DAGs; startpoint choices: default, all shared, each strict subset of size n-1; endpoint choices: default, each single endpoint, 2 random subsets; solve(m,{sat:1}) verdict vs z3 on the reference",
-        "thorough": "same with 150 random DAGs and 8 hash seeds",
+        "thorough": "same with 100 random DAGs and 8 hash seeds",
     },
     "outside": ["empty set of compared endpoints (`sat` is then an undriven buffer)", "startpoints that are not startpoints of both circuits", "circuits with blackboxes or constant x (rejected by the code)"],
     "assumptions": ["sem.py gate table", "pysat stand-in for the solve() verdict", "z3 sound"],
@@ -68,7 +68,7 @@ def restructure(spec, rng):
 
 
 def all_cases(ctx):
-    base = F.f_shape() + [c for c in F.f_unit(3, pairs=False)] + F.f_rand(ctx.seed, 20 if ctx.quick else 150, consts=None)
+    base = F.f_shape() + [c for c in F.f_unit(3, pairs=False)] + F.f_rand(ctx.seed, 20 if ctx.quick else 100, consts=None)
     out = []
     for cid, spec in base:
         for variant in ("self", "copy", "restructured", "mutant", "renamed_input", "input_is_gate"):
